@@ -529,6 +529,21 @@ pub fn proof_complete(a: &Args) -> Report {
         if !matches!(guard(|| Client::verify(&pk, &bp, &ev, md)), Guard::Done(true)) {
           rep.violation("C13", "Client::verify", "honest-rejected", "an honest verifiable evaluation does not verify".into(), ctx.clone());
         }
+        // the same evaluation presented under any OTHER tag (registered or not) is rejected —
+        // also for public keys that commit to a single tag
+        for other in [md ^ 1, md.wrapping_add(1), md.wrapping_sub(1), md ^ 128, 0u8, 255, 7] {
+          if other == md {
+            continue;
+          }
+          rep.evaluations += 1;
+          for key in [Some(&pk), restored.as_ref()].into_iter().flatten() {
+            if matches!(guard(|| Client::verify(key, &bp, &ev, other)), Guard::Done(true)) {
+              rep.violation("C13", "Client::verify", "wrong-tag-accepted",
+                format!("an evaluation for tag {md} verifies under tag {other} (public key with {nt} tag(s))"),
+                json!({"tag_set_size": nt, "tag": md, "presented_as": other}));
+            }
+          }
+        }
         match &restored {
           Some(p2) => {
             if !matches!(guard(|| Client::verify(p2, &bp, &ev, md)), Guard::Done(true)) {
